@@ -260,7 +260,11 @@ class AsyncFIXConnection:
                 " order to get valid response handling"
             )
 
-        if not repr(msg).isascii():
+        if not (
+            repr(msg).isascii()
+            and self._session.sender_comp_id.isascii()
+            and self._session.target_comp_id.isascii()
+        ):
             # FIX frame lengths / checksum are calculated per byte, refuse before
             #   MsgSeqNum is allocated
             raise EncodingError(
